@@ -23,6 +23,8 @@ def tdm_script(rng, with_params=False, with_loop=False):
         lines.append("target %s (shots=%d%s)" % (rng.choice(["TD2", "TD3", "X"]), rng.randint(1, 50), rng.choice(["", "", ', phase_label="p0"', ', gates=["p1", "BS", 3]'])))
     lines.append("type tdm (temporal_modes=%d%s)" % (rng.randint(1, 4), rng.choice(["", ", copies=%d" % rng.randint(1, 9), ', sweep="p1"'])))
     lines.append("")
+    if rng.random() < 0.3:
+        lines.append('str src9 = "p%d"' % rng.randint(0, 2))         # a string that merely spells a p-name; never passed to a gate
     npar = rng.randint(0, 4)
     names = []
     for k in range(npar):
